@@ -15,7 +15,9 @@ RULE = ("K: (a) parity / mirror-map / Poynting-parity tables: every (field kind,
         "random component subsets given in canonical, shuffled and reversed tuple order (every scene carries one Field and one "
         "Phasor detector crossing all planes with a NON-canonical tuple whose parities differ from the stored order, spatial and "
         "reduce_volume alternating; the stored slot order is read off the detector's own update() on constant probe fields), reduce_volume, exact_interpolation, as_slices, keep_all_components, propagation axis, "
-        "boxes straddling / touching / inside the kept half per axis, random recorded states. All outputs compared "
+        "boxes straddling / touching / inside the kept half per axis; every multi-axis scene also carries one detector of each "
+        "kind that crosses only a proper SUBSET of the planes (none, one of two, two of three; the EnergyDetector always "
+        "reduce_volume, the others alternating), random recorded states. All outputs compared "
         "exactly (values are copies and sign flips / factors 0,1,2,4,8). Independent numpy oracle on every array case: "
         "upper half == input (values and dtype), doubled extent, mirror index map + documented parity; for reduce_volume "
         "detectors: unfolded value == reduction of the unfolded spatial twin when nothing sits on a plane. "
@@ -429,8 +431,54 @@ def scene_case(rng, sym, ndet, variant=0):
             if sp["kind"] == "energy":
                 sp["slices"] = False
     dets += noncanonical_dets(rng, sym, vshape, variant)
+    dets += subset_dets(rng, sym, vshape, variant)
     return {"op": "scene", "sym": list(sym), "vshape": vshape, "dets": dets,
             "seed": rng.randint(0, 2 ** 31 - 1), "eager": rng.chance(0.25)}
+
+
+def subset_dets(rng, sym, vshape, variant):
+    """detectors that cross only a SUBSET of the symmetry planes (none, one of two, two of three, ...): one per
+    detector kind, the EnergyDetector always reduce_volume (its 2**count must count the planes THIS detector crosses),
+    the others alternating reduce_volume / spatial with `variant`; on the remaining symmetric axes the box starts on
+    the plane or lies inside the kept half"""
+    axes = [a for a in range(3) if sym[a] != 0]
+    subsets = [list(c) for r in range(len(axes) - 1, -1, -1) for c in itertools.combinations(axes, r)]   # proper, largest first
+    out = []
+    kinds = ["energy", "field", "poynting", "phasor"] if len(axes) >= 2 else ["energy"]
+    for k, kind in enumerate(kinds):
+        sub = subsets[(variant + k) % len(subsets)]
+        nonempty = [x for x in subsets if x]
+        if kind == "energy" and nonempty:       # crossing some but not all planes: 2**count is sensitive to the count
+            sub = nonempty[variant % len(nonempty)]
+        lo, hi = [], []
+        for a in range(3):
+            n, m = vshape[a], vshape[a] // 2
+            if sym[a] == 0:
+                l = rng.randint(0, n - 1)
+                lo.append(l)
+                hi.append(rng.randint(l + 1, n))
+            elif a in sub:
+                lo.append(rng.randint(0, m - 1))
+                hi.append(rng.randint(m + 1, n))
+            elif m >= 2 and rng.chance(0.5):
+                l = rng.randint(m + 1, n - 1)
+                lo.append(l)
+                hi.append(rng.randint(l + 1, n))
+            else:
+                lo.append(m)
+                hi.append(rng.randint(m + 1, n))
+        sp = {"name": f"ps{k}", "kind": kind, "lo": lo, "hi": hi, "exact": rng.chance(0.5), "subset": sub}
+        red = True if kind == "energy" else bool((variant + k) % 2)
+        if kind in ("field", "phasor"):
+            comps = sorted(rng.shuffle(list(range(6)))[:rng.randint(1, 6)])
+            sp["comps"] = comps if rng.chance(0.5) else comps[::-1]
+            sp["reduce"] = red
+        elif kind == "energy":
+            sp["slices"], sp["reduce"] = False, True
+        else:
+            sp["keep_all"], sp["reduce"], sp["prop"], sp["direction"] = rng.chance(0.5), red, rng.randint(0, 2), rng.choice(["+", "-"])
+        out.append(sp)
+    return out
 
 
 def parity_rows(comps, sym):
@@ -759,7 +807,7 @@ def nontrivial_of(case):
 def run(ctx):
     run_tables(ctx)
     cases = []
-    for _ in range(ctx.scale(16, 300)):
+    for _ in range(ctx.scale(12, 300)):
         cases.append(low_case(ctx, ctx.rng))
     for rep in range(ctx.scale(1, 6)):
         flip = ctx.rng.randint(0, 1)
@@ -772,7 +820,7 @@ def run(ctx):
     cases.append({"op": "fields", "sym": [2, 0, 0], "ft": "H", "shape": [2, 1, 2], "vals": [0.25] * 12})
     cases.append({"op": "fields", "sym": [0, -1, -3], "ft": "E", "shape": [1, 2, 2], "vals": [1.5] * 12})
     cases.append({"op": "fields", "sym": [-1, 0, 0], "ft": "D", "shape": [2, 2, 2], "vals": [0.5] * 24})
-    for _ in range(ctx.scale(28, 500)):
+    for _ in range(ctx.scale(22, 500)):
         cases.append(array_case(ctx.rng))
     for case in cases:
         d = EVAL[case["op"]](ctx, case)
@@ -789,7 +837,8 @@ def run(ctx):
                            ctx.rng.choice([(1, 0, 0), (0, 0, 1), (1, 1, 0)]), ctx.rng.choice([(0, 1, -1), (-1, 0, 1)])]
     for k, sym in enumerate(syms):
         # every scene also carries a Field and a Phasor detector with a NON-canonical components tuple (variant k)
-        case = scene_case(ctx.rng, sym, ctx.scale(5, 12), variant=k)
+        nsym = sum(1 for x in sym if x)
+        case = scene_case(ctx.rng, sym, ctx.scale(3 if nsym >= 2 else 5, 12), variant=k)
         d = eval_scene(ctx, case)
         if d:
             ctx.violation(case, d)
